@@ -24,10 +24,12 @@ import (
 	"sync"
 	"time"
 	"reflect"
+	"runtime"
 	"unicode/utf16"
 	"unicode/utf8"
 
 	chproto "github.com/ClickHouse/ch-go/proto"
+	rmodel "github.com/metrico/qryn/reader/model"
 	rsvc "github.com/metrico/qryn/reader/service"
 	wmodel "github.com/metrico/qryn/writer/model"
 	wsvc "github.com/metrico/qryn/writer/service"
@@ -853,7 +855,12 @@ func (r *rows) Next(dest []driver.Value) error {
 
 var db *sql.DB
 
-func readRows(rs [][]driver.Value) (out []RSpan, pan string) {
+// queryMu: "script the rows, open the query" is one step (several queries may be open at once: see concPhase)
+var queryMu sync.Mutex
+
+func openRows(rs [][]driver.Value) *sql.Rows {
+	queryMu.Lock()
+	defer queryMu.Unlock()
 	scriptMu.Lock()
 	scriptRows = rs
 	scriptMu.Unlock()
@@ -861,12 +868,21 @@ func readRows(rs [][]driver.Value) (out []RSpan, pan string) {
 	if err != nil {
 		panic(err)
 	}
+	return r
+}
+
+func readRows(rs [][]driver.Value) (out []RSpan, pan string) {
+	r := openRows(rs)
 	defer r.Close()
 	svc := &rsvc.TempoService{}
 	ch, err := svc.OutputQuery(true, r)
 	if err != nil {
 		return nil, "error: " + err.Error()
 	}
+	return drainSpans(ch), ""
+}
+
+func drainSpans(ch chan *rmodel.SpanResponse) (out []RSpan) {
 	for sr := range ch {
 		x := RSpan{Ok: true, Svc: sr.ServiceName}
 		if sr.Span != nil {
@@ -889,7 +905,7 @@ func readRows(rs [][]driver.Value) (out []RSpan, pan string) {
 		}
 		out = append(out, x)
 	}
-	return out, ""
+	return out
 }
 
 // ---------------------------------------------------------------- body delivery
@@ -1373,6 +1389,21 @@ func run(c *Case, silence bool) {
 		}
 	}
 	c.ReadAllDiff, c.QueryK, c.QueryBad, c.QueryType3 = "", -1, nil, nil
+	if allSafe && c.Fmt != "otlp" && len(c.Read) == len(dbrows) {
+		// stored Zipkin rows + what each gives when read alone (the observation the Coq model is compared with): material of concPhase
+		for i, r := range dbrows {
+			if r[5].(int64) == 1 && c.Read[i].Ok && len(r[6].(string)) <= 20000 {
+				// an own copy of the span the row gives when read alone (c.Read is re-written in place for the output file), held to equal c.Read[i]
+				again, _ := readRows([][]driver.Value{r})
+				if len(again) != 1 || rspanDiff(c.Read[i], again[0]) != "" {
+					concUnstable = append(concUnstable, fmt.Sprintf("case %d row %d", c.ID, i))
+					continue
+				}
+				concPool = append(concPool, concItem{CaseIdx: concCases, Case: c.ID, Row: i, vals: r, want: again[0]})
+			}
+		}
+	}
+	concCases++
 	if allSafe && len(dbrows) > 0 {
 		out, _ := readRows(dbrows)
 		c.ReadAll = len(out)
@@ -1426,6 +1457,229 @@ func run(c *Case, silence bool) {
 	} else {
 		c.ReadAll = -1
 	}
+}
+
+// ---------------------------------------------------------------- trace requests in flight at the same time
+// One reader process answers many GET /api/traces/{id} at once: every OutputQuery call starts a goroutine that streams its rows while the
+// other calls' goroutines stream theirs. concPhase runs K OutputQuery calls over K row sets ("traces": the stored Zipkin rows of whole
+// requests of this run, a trace = the rows of one or more requests, repeated until it has concMinRows rows) ALL IN FLIGHT, each answer drained by
+// its own goroutine, and compares every span of every answer with the span the same row gives when it is read alone (Case.Read, which the
+// Coq model judges).  Two ways of starting: "seq" = the K calls are made one after the other by one goroutine (requests arriving in a
+// burst on one connection handler thread; what a sync.Pool hands from one call to the next stays on one P), "par" = every call made by
+// its own goroutine.
+type concItem struct {
+	CaseIdx int `json:"-"`
+	Case    int `json:"case"`
+	Row     int `json:"row"`
+	vals    []driver.Value
+	want    RSpan
+}
+type ConcMismatch struct {
+	Round    int    `json:"round"`
+	Start    string `json:"start"`
+	InFlight int    `json:"in_flight"`
+	Trace    int    `json:"trace"`
+	Pos      int    `json:"pos"` // position in the answer (-1: only the number of spans differs)
+	CaseIdx  int    `json:"case_index"`
+	Case     int    `json:"case"`
+	Row      int    `json:"row"`
+	Rows     int    `json:"rows"`     // rows of the trace
+	Returned int    `json:"returned"` // spans in the answer
+	Want     *RSpan `json:"read_alone,omitempty"`
+	Got      *RSpan `json:"read_in_flight,omitempty"`
+	// Content: whose name/service/attributes the span came back with: "trace t pos p (case c row r)" or "" (of no stored row of this run)
+	Content string `json:"content_of,omitempty"`
+	What    string `json:"what"`
+}
+type ConcTrace struct {
+	Cases []int `json:"cases"` // indexes (order of this run) of the requests whose rows make the trace
+	Ids   []int `json:"ids"`
+	Rows  int   `json:"rows"`
+}
+type ConcReport struct {
+	Ran        bool           `json:"ran"`
+	Started    bool           `json:"started"`
+	Why        string         `json:"why,omitempty"`
+	GoMaxProcs int            `json:"gomaxprocs"`
+	Traces     []ConcTrace    `json:"traces"`
+	Rounds     int            `json:"rounds"`
+	Calls      int            `json:"calls"`
+	Spans      int            `json:"spans_compared"`
+	PoolRows   int            `json:"pool_rows"`
+	PoolCases  int            `json:"pool_cases"`
+	BadTraces  int            `json:"answers_wrong"`
+	Unstable   []string       `json:"rows_unstable_when_read_alone"`
+	Mismatches []ConcMismatch `json:"mismatches"`
+}
+
+var (
+	concPool    []concItem
+	concCases   int
+	// rows that gave two different spans in two one-at-a-time reads (none expected: the read path is a function of the row)
+	concUnstable []string
+	concMinRows = 160
+)
+
+func contentKey(x RSpan) string {
+	b, _ := json.Marshal([]any{x.Name, x.Svc, x.Attrs})
+	return string(b)
+}
+
+func concPhase(rounds int, planned func(ConcReport)) ConcReport {
+	rep := ConcReport{Mismatches: []ConcMismatch{}, Traces: []ConcTrace{}, PoolRows: len(concPool), Unstable: append([]string{}, concUnstable...)}
+	// whole requests, in order; the biggest payloads are left to the one-at-a-time reads (a 100 kB tag value per row makes a round slow)
+	var reqs [][]concItem
+	for _, it := range concPool {
+		if n := len(reqs); n > 0 && reqs[n-1][0].CaseIdx == it.CaseIdx {
+			reqs[n-1] = append(reqs[n-1], it)
+		} else {
+			reqs = append(reqs, []concItem{it})
+		}
+	}
+	rep.PoolCases = len(reqs)
+	if len(reqs) < 2 {
+		rep.Why = "fewer than two requests with stored Zipkin rows"
+		return rep
+	}
+	k := 8
+	if len(reqs) < k {
+		k = len(reqs)
+	}
+	traces := make([][]concItem, k)
+	rep.Traces = make([]ConcTrace, k)
+	for i, rq := range reqs {
+		t := i % k
+		if len(traces[t]) >= 4*concMinRows {
+			continue
+		}
+		traces[t] = append(traces[t], rq...)
+		rep.Traces[t].Cases = append(rep.Traces[t].Cases, rq[0].CaseIdx)
+		rep.Traces[t].Ids = append(rep.Traces[t].Ids, rq[0].Case)
+	}
+	for t := range traces {
+		for n := len(traces[t]); len(traces[t]) < concMinRows; {
+			traces[t] = append(traces[t], traces[t][:n]...)
+		}
+		rep.Traces[t].Rows = len(traces[t])
+	}
+	where := map[string]string{}
+	for t := range traces {
+		for p, it := range traces[t] {
+			key := contentKey(it.want)
+			if _, ok := where[key]; !ok {
+				where[key] = fmt.Sprintf("trace %d pos %d (case %d row %d)", t, p, it.Case, it.Row)
+			}
+		}
+	}
+	old := runtime.GOMAXPROCS(0)
+	if old < 4 {
+		runtime.GOMAXPROCS(4)
+		defer runtime.GOMAXPROCS(old)
+	}
+	rep.GoMaxProcs = runtime.GOMAXPROCS(0)
+	rep.Rounds = rounds
+	// the plan is on disk before the first call: should the process die of the reads (the read path's goroutines run outside our control; a race
+	// can corrupt memory), the check still holds the trace set
+	rep.Started = true
+	if planned != nil {
+		planned(rep)
+	}
+	rep.Ran = true
+	for round := 0; round < rounds; round++ {
+		inflight := []int{k, k, (k + 1) / 2, 2}[round%4]
+		start := []string{"seq", "par"}[(round/4)%2]
+		first := (round * 3) % k
+		answers := make([][]RSpan, inflight)
+		var wg sync.WaitGroup
+		serve := func(j int, ch chan *rmodel.SpanResponse, r *sql.Rows) {
+			defer wg.Done()
+			defer r.Close()
+			answers[j] = drainSpans(ch)
+		}
+		for j := 0; j < inflight; j++ {
+			rs := make([][]driver.Value, 0, len(traces[(first+j)%k]))
+			for _, it := range traces[(first+j)%k] {
+				rs = append(rs, it.vals)
+			}
+			wg.Add(1)
+			if start == "seq" {
+				r := openRows(rs)
+				ch, err := (&rsvc.TempoService{}).OutputQuery(true, r)
+				if err != nil {
+					panic(err)
+				}
+				go serve(j, ch, r)
+			} else {
+				go func(j int) {
+					r := openRows(rs)
+					ch, err := (&rsvc.TempoService{}).OutputQuery(true, r)
+					if err != nil {
+						panic(err)
+					}
+					serve(j, ch, r)
+				}(j)
+			}
+		}
+		wg.Wait()
+		rep.Calls += inflight
+		for j := 0; j < inflight; j++ {
+			t := (first + j) % k
+			tr, got := traces[t], answers[j]
+			bad := false
+			for p := 0; p < len(tr) && p < len(got); p++ {
+				rep.Spans++
+				if rspanDiff(tr[p].want, got[p]) == "" {
+					continue
+				}
+				bad = true
+				if len(rep.Mismatches) < 12 {
+					w, g := tr[p].want, got[p]
+					m := ConcMismatch{Round: round, Start: start, InFlight: inflight, Trace: t, Pos: p, CaseIdx: tr[p].CaseIdx, Case: tr[p].Case, Row: tr[p].Row,
+						Rows: len(tr), Returned: len(got), Want: &w, Got: &g, What: "the span differs from the span its row gives when read alone"}
+					if src, ok := where[contentKey(g)]; ok && contentKey(g) != contentKey(w) {
+						m.Content = src
+						m.What = "the span came back with the name / service / attributes of another stored span: " + src
+					}
+					rep.Mismatches = append(rep.Mismatches, m)
+				}
+				break
+			}
+			if !bad && len(got) != len(tr) {
+				bad = true
+				if len(rep.Mismatches) < 12 {
+					p := len(got)
+					if p >= len(tr) {
+						p = len(tr) - 1
+					}
+					rep.Mismatches = append(rep.Mismatches, ConcMismatch{Round: round, Start: start, InFlight: inflight, Trace: t, Pos: -1, CaseIdx: tr[p].CaseIdx,
+						Case: tr[p].Case, Row: tr[p].Row, Rows: len(tr), Returned: len(got),
+						What: fmt.Sprintf("the answer has %d spans for %d stored rows (every row decodes when read alone)", len(got), len(tr))})
+				}
+			}
+			if bad {
+				rep.BadTraces++
+			}
+		}
+	}
+	return rep
+}
+
+func writeConc(path string) {
+	if path == "" || path == "-" || os.Getenv("SPANS_CONC") == "0" {
+		return
+	}
+	rounds := 24
+	if n, err := strconv.Atoi(os.Getenv("SPANS_CONC")); err == nil && n > 0 {
+		rounds = n
+	}
+	t0 := time.Now()
+	put := func(rep ConcReport) {
+		b, _ := json.Marshal(map[string]any{"conc": rep, "wall_ms": time.Since(t0).Milliseconds()})
+		if err := os.WriteFile(path+".conc", append(b, '\n'), 0o644); err != nil {
+			panic(err)
+		}
+	}
+	put(concPhase(rounds, put))
 }
 
 // ---------------------------------------------------------------- generators
@@ -2432,6 +2686,8 @@ func main() {
 			armor(&c)
 			out.Put(c)
 		})
+		out.Close() // the cases are on disk before the reads in flight begin
+		writeConc(fl.Out)
 		return
 	}
 	r := hx.Rand(fl.Seed)
@@ -2441,4 +2697,6 @@ func main() {
 		armor(&c)
 		out.Put(c)
 	}
+	out.Close()
+	writeConc(fl.Out)
 }
